@@ -111,4 +111,23 @@ theorem runOps_trace (ops : List (FOp n)) (h : ∀ o ∈ ops, o.complete) (ρ : 
     show (runOps ops (o.act ρ)).trace = ρ.trace
     rw [ih (fun o' ho' => h o' (by simp [ho'])), act_trace o (h o (by simp))]
 
+/-! ### pure and mixed representation agree -/
+
+/-- one gate: the density matrix of the updated ket is the updated density matrix, for every matrix `U` (unitary or truncated) -/
+theorem pure_mixed_gate (U : Matrix n n ℂ) (ψ : n → ℂ) :
+    Matrix.vecMulVec (U.mulVec ψ) (star (U.mulVec ψ)) = U * Matrix.vecMulVec ψ (star ψ) * Uᴴ := by
+  rw [Matrix.star_mulVec, ← Matrix.mul_vecMulVec, ← Matrix.vecMulVec_mul, Matrix.mul_assoc]
+
+/-- **a program of gates gives the same state in the pure and in the mixed representation**: running the gate matrices on the
+ket and then forming `|ψ⟩⟨ψ|` equals running `ρ ↦ UρU†` on `|ψ⟩⟨ψ|` — any number of gates, any matrices -/
+theorem pure_mixed_program (Us : List (Matrix n n ℂ)) (ψ : n → ℂ) :
+    (let φ := Us.foldl (fun v U => U.mulVec v) ψ; Matrix.vecMulVec φ (star φ)) =
+      runOps (Us.map FOp.gate) (Matrix.vecMulVec ψ (star ψ)) := by
+  induction Us generalizing ψ with
+  | nil => rfl
+  | cons U Us ih =>
+    simp only [List.foldl_cons, List.map_cons, runOps] at ih ⊢
+    rw [ih (U.mulVec ψ), pure_mixed_gate]
+    rfl
+
 end SFV.FockPos
